@@ -313,7 +313,12 @@ func genJSON(t *tape.Tape, o GenOpts) *World {
 	// records inside group objects: the target xpath has middle steps, with or without a predicate on a
 	// member of the group that precedes the records
 	grouped, groupPred, groupReopen := false, false, false
-	if o.Family == "" && !sh.NumericFilter && t.Chance("json.grouped", 1, 4) {
+	// the document is an array of records and nothing else (a very common shape): no context outside the records
+	topArr := o.Family == "" && t.Chance("json.top-level-array", 1, 5)
+	if topArr {
+		m.Ctx = nil
+		w.SetTag("json.top-level-array", "1")
+	} else if o.Family == "" && !sh.NumericFilter && t.Chance("json.grouped", 1, 4) {
 		grouped = true
 		groupPred = t.Bool("json.grouped.predicate")
 		groupReopen = !o.NoSiblingContext && t.Bool("json.grouped.reopen")
@@ -332,7 +337,10 @@ func genJSON(t *tape.Tape, o GenOpts) *World {
 	}
 	// a stream of top-level values, one per record (NDJSON), the top-level value being the target;
 	// drawn here, applied below (the library as it stands reads the first value and refuses the rest)
-	ndjson := !grouped && o.Family == "" && !o.OwnDataOnly && t.Chance("json.ndjson", 1, 8)
+	if topArr {
+		target = strings.TrimPrefix(target, "/recs")
+	}
+	ndjson := !topArr && !grouped && o.Family == "" && !o.OwnDataOnly && t.Chance("json.ndjson", 1, 8)
 	if grouped {
 		step := "/grps/*"
 		if groupPred {
@@ -391,6 +399,12 @@ func genJSON(t *tape.Tape, o GenOpts) *World {
 	w.Suffix = "]}"
 	if ndjson {
 		w.Prefix, w.Sep, w.Suffix = "", "\n", "\n"
+	}
+	if topArr {
+		w.Prefix, w.Suffix = "[", "]"
+		if nl {
+			w.Prefix, w.Suffix = "[\n", "\n]\n"
+		}
 	}
 	if grouped {
 		w.Prefix = `{"hdr":{"h0":` + jsonStr(Text(t, sh.Charset, 6)) + `},"grps":[{"k":"A","recs":[`
